@@ -525,3 +525,114 @@ def run_parse_interactions_case(cls, lines):
     elif calls != exp:
         out['loop.step.appearance_at_t_or_vanishing_of_the_latest_run_at_t'] = 'kernel calls %r, the rows ask for %r' % (calls, exp)
     return out
+
+
+# ---- write_snapshots / write_interactions (C09 / C10 writers' file layer) -----------------------------------------------------------
+#
+# write_X(G, path, delimiter, encoding)     (@open_file: `path` is the opened file object - trusted)
+#   ensures  generate_X is called once, with the caller's own G and delimiter;
+#            for every line it yields, in order, EXACTLY ONE  path.write((line + "\n").encode(encoding))  with the caller's own encoding;
+#            nothing else is written.   (generate_X by its verified contract: contracts/writers.py; text + "\n" and .encode are opaque)
+
+class _GenerateLinesCallSite(Contract):
+    """caller side of generate_snapshots / generate_interactions inside the file writers: site obligations, an abstract sequence of lines"""
+
+    def __init__(self, key):
+        self.key = key
+
+    def apply(self, interp, g, argv, kwv):
+        ctx = interp.ctx
+        c = ctx.fw_
+        env = interp.bind_args(interp.engine.fn(self.key).fdef, argv, kwv)
+        T_ = c.tags
+        G, d = env.get('G'), env.get('delimiter')
+        ctx.oblige('%s.writer.generates_the_rows_of_its_own_graph' % T_[0], z3.BoolVal(G is not None and G.kind == 'graph' and G.g is c.g), tags=T_, kind='call-site')
+        ctx.oblige('%s.writer.passes_its_own_delimiter' % T_[0], z3.BoolVal(d is not None and d.kind == 'opaque' and d.z.eq(c.delim.z)), tags=T_, kind='call-site')
+        c.generated += 1
+        return VSeq(c.n, lambda k: VOpaque(c.line(k), 'text'), {'elem_kind': 'text'})
+
+
+class FileWriter(Contract):
+    def __init__(self, cls, fname, bound_n=None):
+        self.cls, self.fname = cls, fname
+        self.directed = cls == 'DynDiGraph'
+        self.key = 'edgelist::%s' % fname
+        self.gen = 'edgelist::generate_%s' % fname.split('_', 1)[1]
+        self.props = ('C09',) if 'snapshots' in fname else ('C10',)
+
+    def uses(self, eng):
+        return [_GenerateLinesCallSite(self.gen)]
+
+    def setup(self, ctx, variant):
+        g = HGraph('G', self.directed, self.cls).havoc('0')
+        g['ER'] = z3.BoolVal(True)
+        ctx.graphs['G'] = g
+        enc = fresh_fun('encode', Obj, Obj, Obj)
+        addnl = fresh_fun('add_newline', Obj, Obj)
+        ctx.textworld = {'enc': enc, 'addnl': addnl}
+        n = fresh('n_rows', Int)
+        line = fresh_fun('row', Int, Obj)
+        ctx.assume(n >= 0)
+        delim, encoding = VOpaque(fresh('delimiter', Obj), 'param'), VOpaque(fresh('encoding', Obj), 'param')
+        c = Call(g=g, pre=g.snapshot(), n=n, line=line, delim=delim, encoding=encoding, enc=enc, addnl=addnl, writes=[], generated=0, tags=self.props,
+                 argv=[VGraph(g), VOpaque(fresh('file', Obj), 'file'), delim, encoding], kwv={})
+        ctx.fw_ = c
+
+        def on_write(interp, f, argv, kwv):
+            c.writes.append(list(argv))
+            return VNone
+        ctx.file_write_hook = on_write
+        return c
+
+    def loop_specs(self):
+        def inv(L):
+            c = L.ctx.fw_
+            T_ = c.tags
+            if L.assuming or z3.is_int_value(z3.simplify(L.k)):
+                return []
+            k = z3.simplify(L.k - 1)
+            if len(c.writes) != 1 or len(c.writes[0]) != 1:
+                return [('exactly_one_write_per_row', z3.BoolVal(False))]
+            x = c.writes[0][0]
+            ok = z3.BoolVal(False) if not (x.kind == 'opaque' and x.tag == 'bytes') else x.z == c.enc(c.addnl(c.line(k)), c.encoding.z)
+            return [('exactly_one_write_per_row', z3.BoolVal(True)), ('the_row_plus_newline_in_the_callers_encoding', ok)]
+        return {'seq/1': LoopSpec(inv, modifies={}, tags=self.props)}
+
+    def finish(self, ctx, c, outcome):
+        T_ = c.tags
+        if outcome[0] == 'raise':
+            return self.forbid(ctx, '%s.writer.no_exception.%s' % (T_[0], outcome[1]), tags=T_, note=outcome[2])
+        ctx.oblige('%s.writer.asks_the_row_generator_once' % T_[0], z3.BoolVal(c.generated == 1), tags=T_)
+        ctx.oblige('%s.writer.writes_nothing_outside_the_row_loop' % T_[0], z3.BoolVal(len(c.writes) == 0), tags=T_)
+        from pyvc import spec as sp
+        for comp, f in sp.state_unchanged(c.g, c.pre).items():
+            ctx.oblige('%s.writer.modifies_nothing.%s' % (T_[0], comp), f, tags=T_)
+
+    def search_real(self, engine):
+        for enc in ('utf-8', 'latin-1', 'utf-16-le'):
+            for delim in (' ', ';'):
+                v = run_writer_case(self.cls, self.fname, delim, enc)
+                if v:
+                    return {'violated': v, 'call': '%s(G, <BytesIO>, delimiter=%r, encoding=%r) on a %s with a non-ASCII node id' % (self.fname, delim, enc, self.cls),
+                            'replayer': {'module': 'contracts.parsers', 'function': 'run_writer_case', 'args': [self.cls, self.fname, delim, enc]}}
+        return None
+
+
+def run_writer_case(cls, fname, delim, enc):
+    """the real writer into a BytesIO: the bytes must be the generator's rows, each followed by a newline, in the given encoding"""
+    import io
+    import dynetx as dn
+    from dynetx.readwrite import edgelist as E
+    G = getattr(dn, cls)()
+    G.add_interaction(u'\xe9', 'b', 0, 3)
+    G.add_interaction('b', 'c', 2)
+    gen = getattr(E, 'generate_' + fname.split('_', 1)[1])
+    exp = b''.join((row + '\n').encode(enc) for row in gen(G, delim))
+    buf = io.BytesIO()
+    try:
+        getattr(E, fname)(G, buf, delimiter=delim, encoding=enc)
+    except Exception as ex:
+        return {'%s.writer.no_exception.%s' % ('C09' if 'snapshots' in fname else 'C10', type(ex).__name__): repr(ex)}
+    if buf.getvalue() != exp:
+        return {'loop.step.the_row_plus_newline_in_the_callers_encoding': 'wrote %r, expected %r' % (buf.getvalue()[:80], exp[:80])}
+    return {}
